@@ -345,7 +345,7 @@ def _hist_detail(enc, size, focus, ops, probs, timeout):
     py = ["from urwid import vterm, util", f"util.set_encoding({enc!r})", "class W:", "    term_modes = vterm.TermModes(); respond = set_title = leds = staticmethod(print); beep = staticmethod(lambda: None)", f"t = vterm.TermCanvas({size[0]}, {size[1]}, W())"]
     if focus:
         py.append("t.has_focus = True")
-    show = "; print((t.width, t.height), len(t.term), [len(r) for r in t.content()], t.term_cursor, t.cursor, (t.scrollregion_start, t.scrollregion_end))"
+    show = "; print((t.width, t.height), len(t.term), len({id(r) for r in [*t.term, *t.scrollback_buffer]}) - len(t.scrollback_buffer), [len(r) for r in t.content()], t.term_cursor, t.cursor, (t.scrollregion_start, t.scrollregion_end))"
     cur_h = size[1]
     for op in ops:
         if op[0] in ("feed", "feed1"):
@@ -709,6 +709,7 @@ def faithful_case(size, setup, toks):
     base["canvas_cursor"] = list(real[3]) if real[3] is not None else None
     if d is None and al:
         d = ("row-aliasing", al)
+        base["python"] = [*base["python"], "print(len({id(r) for r in [*t.term, *t.scrollback_buffer]}), 'distinct row objects for', len(t.term) + len(t.scrollback_buffer), 'rows')"]
     if d is None:
         return "ok", base
     return "fail", base | {"aspect": d[0], "why": d[1], "got_screen": _dump(real[0]), "got_cursor": list(real[1])}
